@@ -67,8 +67,10 @@ fn main() -> Result<()> {
                 .with_unsafe_mutations(args.unsafe_mutations);
         }
 
-        // apply EXT and buffer opcode flags
+        // apply the unsafe-mutations flag (the generator consults it even without
+        // mutators) and the EXT and buffer opcode flags
         generator = generator
+            .with_unsafe_mutations(args.unsafe_mutations)
             .with_ext_opcodes(args.allow_ext)
             .with_buffer_opcodes(args.allow_buffer);
 
@@ -123,8 +125,9 @@ fn main() -> Result<()> {
                         .with_unsafe_mutations(unsafe_mutations);
                 }
 
-                // apply EXT and buffer opcode flags
+                // apply the unsafe-mutations flag and the EXT and buffer opcode flags
                 generator = generator
+                    .with_unsafe_mutations(unsafe_mutations)
                     .with_ext_opcodes(allow_ext_opcodes)
                     .with_buffer_opcodes(allow_buffer_opcodes);
 
